@@ -156,6 +156,10 @@ const c11ChunkPairs = 25000
 
 // pairs stage: every ordered pair of images over the block occurs as two consecutive frames.
 func runC11Pairs(c c11Case) (string, string, int) {
+	return guard3("C11", func() (string, string, int) { return runC11Pairs0(c) })
+}
+
+func runC11Pairs0(c c11Case) (string, string, int) {
 	cam := vcam{4, 3, 9}
 	imgs := c11Images(c.Block)
 	total := len(imgs) * len(imgs)
@@ -192,6 +196,10 @@ func runC11Pairs(c c11Case) (string, string, int) {
 }
 
 func runC11Single(c c11Case) (string, string) {
+	return guard2("C11", func() (string, string) { return runC11Single0(c) })
+}
+
+func runC11Single0(c c11Case) (string, string) {
 	cam := vcam{c.X, c.Y, 9}
 	mk := func(v uint16, pos int, n int) *cptvframe.Frame {
 		f := cptvframe.NewFrame(cam)
@@ -218,6 +226,10 @@ func runC11Single(c c11Case) (string, string) {
 }
 
 func runC11Meta(m c11Meta) (string, string) {
+	return guard2("C11", func() (string, string) { return runC11Meta0(m) })
+}
+
+func runC11Meta0(m c11Meta) (string, string) {
 	cam := vcam{8, 6, m.FPS}
 	f := cptvframe.NewFrame(cam)
 	for y := range f.Pix {
@@ -307,6 +319,10 @@ func (c c11Case) e2eItems() []e2eItem {
 }
 
 func runC11E2E(c c11Case) (string, string, int) {
+	return guard3("C11", func() (string, string, int) { return runC11E2E0(c) })
+}
+
+func runC11E2E0(c c11Case) (string, string, int) {
 	s := *c.S
 	items := c.e2eItems()
 	res, _ := s.runHandleConn(s.stream(items), nil, false)
@@ -330,6 +346,10 @@ func runC11E2E(c c11Case) (string, string, int) {
 // runC11Reconnect: the camera reconnects to the same daemon instance as another model; the second
 // connection's files must be shaped by the second model's motion defaults.
 func runC11Reconnect(c c11Case) (string, string) {
+	return guard2("C11", func() (string, string) { return runC11Reconnect0(c) })
+}
+
+func runC11Reconnect0(c c11Case) (string, string) {
 	s1, s2 := *c.S0, *c.S
 	c1 := c
 	c1.S = &s1
